@@ -53,6 +53,7 @@ def containers(rng, pk, grid, thorough):
         off = rng.choice([1, 3600, 1600000000, -5])
         out.append((f"pcapng-{tag}-tsoffset", ns.pcapng(pk, le=le, tsoffset=off), False))
         out.append((f"pcapng-{tag}-tsresol9-tsoffset-junk", ns.pcapng(with_junk(rng, pk, e, 3), le=le, tsresol=9, tsoffset=off), False))
+        out.append((f"pcapng-{tag}-obsolete-packet-blocks", ns.pcapng(pk, le=le, obsolete_pb=rng.choice([0.3, 1.0]), tsresol=rng.choice([None, 9])), False))
         out.append((f"pcapng-{tag}-blocks-before-idb", ns.pcapng(pk, le=le, pre_idb=[("raw",) + junk_block(rng, e) for _ in range(rng.randrange(1, 4))]), False))
         out.append((f"pcapng-{tag}-tsoffset-then-tsresol9", ns.pcapng(pk, le=le, tsresol=9, tsoffset=off, offset_first=True), False))
         out.append((f"pcapng-{tag}-extra-options", ns.pcapng(pk, le=le, tsresol=rng.choice([None, 6, 9]), tsoffset=rng.choice([None, off]), offset_first=rng.random() < 0.5,
